@@ -46,14 +46,14 @@ Definition expected_reqs (cs : list cent) : list nat :=
 
 (* ---------- abstraction of a scenario to a small LTS instance ---------- *)
 Inductive cfault :=
-| CNone | CBreak (side : bool) (k : nat) | CCancel (side : bool) (k : nat)
+| CNone | CBreak (side : bool) (k : nat) | CCancel (which : N) (k : nat)
 | CWalk (a : nat) | CRead (a b : nat) | COpen (a : nat) | CHash (a : nat) | CNotify (a : nat).
 
 Definition dec_fault_core (k a b : N) : option cfault :=
   let a' := N.to_nat a in let b' := N.to_nat b in
   if N.eqb k 0 then Some CNone
   else if N.eqb k 1 then Some (CBreak (N.odd a) b')
-  else if N.eqb k 2 then Some (CCancel (N.odd a) b')
+  else if N.eqb k 2 then Some (CCancel (N.land a 3) b')
   else if N.eqb k 3 then Some (CWalk a')
   else if N.eqb k 4 then Some (CRead a' b')
   else if N.eqb k 5 then Some (COpen a')
@@ -104,14 +104,16 @@ Definition abs_followers (m : nat) : nat :=
    flight when the fault strikes); when the fault is held back until quiescence also the entries
    that pile up behind the target (see abs_followers); without a target the first requested file
    (else the first entry handled synchronously); gated: the first two requested files *)
-Definition abstract_entries (cs : list cent) (target : option nat) (gated pile : bool)
+Definition as_backlog (e : entry) : entry := {| e_file := e_file e; e_chunks := e_chunks e; e_kind := ESame |}.
+Definition abstract_entries (cs : list cent) (target : option nat) (gated pile backlog_only : bool)
   : list entry * nat (* new index of the target *) :=
   match target with
   | Some t =>
       let before := find (fun ie => (fst ie <? t) && is_need (ce_kind (snd ie))) (indexed cs) in
       let after := if pile then firstn (abs_followers (length cs - S t)) (skipn (S t) cs) else [] in
       (map (fun ie => to_entry 1 (snd ie)) (opt_list before) ++ map (to_entry 2) (opt_list (nth_error cs t))
-       ++ map (to_entry 1) after,
+       ++ map (to_entry 1) (firstn 1 after)
+       ++ map (fun c => if backlog_only then as_backlog (to_entry 1 c) else to_entry 1 c) (skipn 1 after),
        length (opt_list before))
   | None =>
       let needs := filter (fun c => is_need (ce_kind c)) cs in
@@ -130,7 +132,11 @@ Definition abstract_fault (cs : list cent) (f : cfault) (hold : bool) (t' : nat)
   | Some _, CHash _ => FHashErr t'
   | Some _, CNotify _ => FNotifyErr t'
   | _, CBreak side k => FBreak side ((k =? 0) && negb hold)     (* held: the position is ignored *)
-  | _, CCancel side k => FCancel side ((k =? 0) && negb hold)
+  | _, CCancel which k =>
+      let at0 := (k =? 0) && negb hold in
+      (* which context: 0 Send's, 1 Receive's, 2 the stream's, 3 one context shared by all three *)
+      if N.eqb which 0 then FCancel false at0 else if N.eqb which 1 then FCancel true at0
+      else if N.eqb which 2 then FCancelStream at0 else FCancelAll at0
   | _, _ => FNone
   end.
 
@@ -157,7 +163,16 @@ Definition abstract (cs : list cent) (f : cfault) (gated hold : bool) (stall : o
                                   end
                       | None => false
                       end in
-  let '(es, t') := abstract_entries cs pivot gated pile in
+  (* when the postponed event hits the sender (its context, the stream, or everything) the
+     entries behind the pivot only matter as a backlog that keeps the walker busy: the sender
+     serves none of them any more; all but the first are kept as unchanged entries to keep the
+     instance small *)
+  let backlog_only := match f with
+                      | CCancel w _ => negb (N.eqb w 1)
+                      | CBreak side _ => negb side
+                      | _ => false
+                      end in
+  let '(es, t') := abstract_entries cs pivot gated pile backlog_only in
   let f' := match ft with Some _ => abstract_fault cs f hold t' | None => abstract_fault cs f hold 0 end in
   let st' := match st, pivot with
              | Some i, Some t => if i =? t then Some t' else None   (* a stall elsewhere is not kept *)
@@ -176,7 +191,12 @@ Definition sig_k3 : bytes := (* "open-error-empty-file-success" *)
 Definition tag_sig : bytes := [115;105;103]%N.
 
 Definition run_0401 (input impl : sx) : sx :=
-  match input, impl with
+  (* the optional 7th field (source kind: in-memory / on-disk walker) does not change the model *)
+  let input6 := match input with
+                | SL [v; pr; f; fan; cap; chunk; _] => SL [v; pr; f; fan; cap; chunk]
+                | _ => input
+                end in
+  match input6, impl with
   | SL [v; pr; f; SN fan; SN cap; SN chunk],
     SL [SN snd_; SN rcv; hung; SN leaks; fs; SL diffs; SN follow; errs; errr; fired; bigfan] =>
     match dec_view v, dec_view pr, dec_fault f,
